@@ -601,11 +601,11 @@ static void mode_used_vectors() {
         std::string path = P("case.dat"); spit(path, f.data);
         for (int hist : {2, 50, -1}) for (auto r : ranges_for(f.n)) {
             long rb = (r.first == 0 && r.second == f.n) ? -1 : r.first, re = (r.first == 0 && r.second == f.n) ? -1 : r.second;
-            std::string txt = in_child([&]() {
-                Intern in; g_prefill = 0; Out fresh = f.read(path, rb, re, in);
-                g_prefill = hist; Out used = f.read(path, rb, re, in); g_prefill = 0;
-                vr::obj o; o.raw("fresh", fresh.json()).raw("used", used.json()); std::string s = o.done(); return s.substr(1, s.size() - 2);
-            }, [](const std::string &why) { return "\"fresh\":" + crash_json("(not run)") + ",\"used\":" + crash_json(why); });
+            // two children (fresh vectors / used vectors), each with its own intern table: equal value sequences
+            // get equal ids, so the two structures are comparable
+            std::string fresh = in_child([&]() { Intern in; g_prefill = 0; return f.read(path, rb, re, in).json(); }, crash_json);
+            std::string used  = in_child([&]() { Intern in; g_prefill = hist; return f.read(path, rb, re, in).json(); }, crash_json);
+            std::string txt = "\"fresh\":" + fresh + ",\"used\":" + used;
             vr::obj o; o.str("k", "usedvec").i("fid", f.id).str("fmt", f.fmt).b("dense", f.fmt == "mm-dense" || f.fmt == "bin-dense").i("hist", hist).i("rb", rb).i("re", re);
             std::string s = o.done(); vr::emit(s.substr(0, s.size() - 1) + "," + txt + "}"); ++g_cases;
         }
